@@ -327,6 +327,9 @@ type ProcCase struct {
 	// ProdRetry: the producer has a retry policy and fails its first attempt
 	// after having printed the payload; the variable holds the LAST attempt's stdout
 	ProdRetry bool `json:"prodRetry,omitempty"`
+	// EnvClash: the definition has an `env:` entry with the NAME of a named
+	// parameter that is given: the parameter is what steps have to see
+	EnvClash bool `json:"envClash,omitempty"`
 }
 
 func genPayload(t *rapid.T) string {
@@ -361,6 +364,7 @@ func genProc(t *rapid.T) ProcCase {
 		c.ErrNoise = rapid.SampledFrom([]int{1, 50, 5000}).Draw(t, "noiseN")
 	}
 	c.ProdRetry = rapid.IntRange(0, 2).Draw(t, "prodRetry") == 0 && len(c.Payload) < 60000
+	c.EnvClash = rapid.IntRange(0, 2).Draw(t, "envClash") == 0
 	return c
 }
 
@@ -479,10 +483,41 @@ func checkProc(t rep.Fataler, c ProcCase) {
 		map[string]any{"name": "gate", "command": fmt.Sprintf("%s %s 2 0 0 0", emit, filepath.Join(work, "gate.cnt")), "depends": []string{"cons1", "later"}},
 		envStep("cons2", "gate"),
 	}
+	// the consumer position "$n / $NAME inside a command line": an argument
+	// recorder gets every given parameter as an argument of its own
+	argPos, argNamed := envOf(c.Params)
+	if c.AsOver && render(c.Params) == "" {
+		argPos, argNamed = []string{"default1", "defaultA"}, map[string]string{"VP_A": "defaultA"}
+		argPos[1] = "VP_A=defaultA"
+	}
+	var argNames []string
+	for _, n := range paramNames {
+		if _, ok := argNamed[n]; ok {
+			argNames = append(argNames, n)
+		}
+	}
+	argFile := filepath.Join(work, "args1")
+	argCmd := os.Getenv("VERIF_TOOL_ARGDUMP") + " " + argFile
+	var wantArgs []string
+	for i := range argPos {
+		if i >= 4 {
+			break
+		}
+		argCmd += fmt.Sprintf(" $%d", i+1)
+		wantArgs = append(wantArgs, argPos[i])
+	}
+	for _, n := range argNames {
+		argCmd += " ${" + n + "}"
+		wantArgs = append(wantArgs, argNamed[n])
+	}
+	steps = append(steps, map[string]any{"name": "args1", "command": argCmd, "depends": []string{"mid"}})
 	handler := func(n string) map[string]any { return map[string]any{"command": "env -0", "stdout": pr(n)} }
 	def := map[string]any{
 		"steps":     steps,
 		"handlerOn": map[string]any{"success": handler("onSuccess"), "failure": handler("onFailure"), "exit": handler("onExit")},
+	}
+	if c.EnvClash && len(argNames) > 0 {
+		def["env"] = []any{map[string]string{argNames[0]: "from-the-env-block"}, map[string]string{"VP_UNRELATED_ENV": "kept"}}
 	}
 	paramStr := render(c.Params)
 	over := ""
@@ -539,6 +574,23 @@ func checkProc(t rep.Fataler, c ProcCase) {
 	all := map[string]bool{"cons1": true, "later": true, "onFailure": true, "onExit": true, "cons2": true, "onSuccess": true}
 	if m := collect("run started with `"+paramStr+"`", []string{"cons1", "later", "onFailure", "onExit"}, all); m != "" {
 		fail(map[string]any{"runErr": fmt.Sprint(runErr)}, "%s", m)
+	}
+	if ab, err := os.ReadFile(argFile); err != nil {
+		fail(map[string]any{"command": argCmd}, "run started with `%s`: the step whose command line names the parameters left no record (it did not run)", paramStr)
+	} else {
+		got := strings.Split(strings.TrimSuffix(string(ab), "\x00"), "\x00")
+		if len(ab) == 0 {
+			got = nil
+		}
+		if len(got) != len(wantArgs) {
+			fail(map[string]any{"command": argCmd, "got": got, "want": wantArgs}, "run started with `%s`: the command line `%s` reached the process with %d argument(s) %q, expected %d %q", paramStr, argCmd, len(got), got, len(wantArgs), wantArgs)
+		}
+		for i := range got {
+			if got[i] != wantArgs[i] {
+				fail(map[string]any{"command": argCmd, "got": got, "want": wantArgs}, "run started with `%s`: argument %d of the command line `%s` is %q, the parameter's value is %q", paramStr, i+1, argCmd, abbreviate(got[i]), abbreviate(wantArgs[i]))
+			}
+		}
+		os.Remove(argFile)
 	}
 	sf, err := h.DS.HistoryStore().FindByRequestID(file, id1)
 	if err != nil {
